@@ -475,7 +475,9 @@ fn part_b(run: &mut Run) {
             if quick && q == P8.len() - 1 && ![0usize, 4, P8.len() - 1].contains(&p) {
                 continue;
             }
-            configs.push((format!("2t:{}|{}", p, q), vec![vec![p], vec![q]], if quick { 2 } else { 3 }));
+            // (in the thorough tier the deep-nesting program is explored at bound 2, all others at 3)
+            let deep = p == P8.len() - 1 || q == P8.len() - 1;
+            configs.push((format!("2t:{}|{}", p, q), vec![vec![p], vec![q]], if quick || deep { 2 } else { 3 }));
         }
     }
     if !quick {
